@@ -271,3 +271,11 @@ def split_args(s):
 _t_ew = tasks
 def tasks(tier):
     return _t_ew(tier) + [('entry_wiring', t_entry_wiring)]
+
+
+# ---------------------------------------------------------------- C08.h / C08.i: who ends up holding a role or a receivership (shared with C13.h group configure; C10.a the bracket that bounds a receiver's control to one transaction)
+_t_c08hi = tasks
+def tasks(tier):
+    import specs.C13 as C13, specs.C10 as C10
+    return _t_c08hi(tier) + [('group_roles', lambda w: C13.t_group_configure(w, 'C08.i')), ('bracket_first', renamed(C10.mk_first('quick'), 'C10.a.', 'C08.h.')),
+                             ('bracket_last', renamed(C10.mk_last('quick'), 'C10.a.', 'C08.h.')), ('bracket_exclusive', renamed(C10.mk_excl('quick'), 'C10.a.', 'C08.h.'))]
